@@ -833,8 +833,11 @@ class StridedInterval:
             # They are not equal
             return FalseResult()
 
-        if self.name == o.name:
-            return TrueResult()  # They are the same guy
+        if o is self:
+            # One abstract value compared with itself.  (The name does not tell: copy() keeps it, and zero_extend,
+            # sign_extend, extract, ... return such copies with other values - ZeroExt(8, x) == SignExt(8, x) was True
+            # for x in [0x80, 0x90].)
+            return TrueResult()
 
         si_intersection = self.intersection(o)
         if si_intersection.is_empty:
